@@ -575,4 +575,5 @@ func runC10(c *Ctx) {
 		i++
 	}
 	c.R.Sample(map[string]any{"history": []string{"insert(valid+code)", "edit-doc", "sign(k1)"}, "expected": "sign fails with key digest and leaves no signatures"})
+	c.Require("histories_on:examples/es/out/payment.json", "histories_on:examples/es/out/order.json")
 }
